@@ -44,3 +44,8 @@ package dsig
 //@   ensures err == nil <==> payloadOK(s)
 //@   ensures head.wfHeader(signedHeader(s)) && allocated(signedHeader(s))
 //@   ensures err == nil ==> head.sameFields(unboxed(payload, *head.Header), signedHeader(s))
+//
+//@ func (s *Signature) Verify(key) (data, err)
+//@   trusted A-SIG: go-jose verification
+//@   requires s != nil && s.jws != nil && key != nil
+//@   ensures err == nil <==> jwsValid(s, key)
